@@ -15,6 +15,7 @@ import (
 	dawn "github.com/pgavlin/dawn"
 	"github.com/pgavlin/dawn/pickle"
 	"github.com/pgavlin/dawn/verif/ev"
+	"github.com/pgavlin/dawn/verif/projsim"
 	"github.com/pgavlin/dawn/verif/starval"
 	"go.starlark.net/starlark"
 	"pgregory.net/rapid"
@@ -23,6 +24,7 @@ import (
 var run *ev.Run
 
 func TestMain(m *testing.M) {
+	projsim.MaybeChild()
 	run = ev.Start("C15", "exploration",
 		"(a) byte strings <= 4 KiB: rapid takes a valid encoding (values from the C07 generator, or a real target-function environment pickled by "+
 			"dawn's own pickler) and applies 1-6 structured mutations (bit flip, byte := any opcode, truncation, splice of another encoding, operand "+
@@ -30,8 +32,12 @@ func TestMain(m *testing.M) {
 			"input is decoded with the generic host unpickler and with dawn's environment unpickler. Oracle: Decode returns; either err != nil or the "+
 			"value is non-nil and a cycle-safe walk finds no nil element and no panicking String/Type; no panic escapes; a watchdog reports a decode "+
 			"that has not returned after 20 s. Inputs whose 4-byte declared string lengths exceed the input size are skipped and counted "+
-			"(the statement bounds declared lengths by the input size). Non-trivial = the input decodes, or passes >= 3 opcodes before failing. "+
-			"Distinct by case JSON.",
+			"(the statement bounds declared lengths by the input size). (b) a generated project is built, one target of the closure is made genuinely "+
+			"stale by an edit, and its persisted record (or a source's) is corrupted: truncated at a generated offset, bytes flipped, its pickled stamp "+
+			"mutated with the mutators of (a), replaced by opcode soup, by a valid pickle of a foreign value, or by type-confused JSON; then the project is "+
+			"loaded and built in process. Oracle: no panic; either Load or Run reports an error, or the stale target executes and all outputs equal a "+
+			"from-scratch build - 'up to date' is a violation whatever the corrupted bytes say. Non-trivial = (a) the input decodes or passes >= 3 "+
+			"opcodes before failing, (b) the corrupted record is still valid JSON. Distinct by case JSON.",
 		"declared lengths are bounded by the input size (checked by an independent framing walker)",
 	)
 	ev.Main(m, run)
@@ -326,7 +332,7 @@ func genCase(t *rapid.T) Case {
 }
 
 func TestC15Decode(t *testing.T) {
-	ev.Explore(run, t, "decode", run.N(25000, 250000), genCase, execCase)
+	ev.Explore(run, t, "decode", run.N(8000, 250000), genCase, execCase)
 
 	// every truncation of every environment seed and of a few value encodings (enumerated)
 	type tc struct{ b []byte }
@@ -350,6 +356,45 @@ func TestC15Decode(t *testing.T) {
 		i++
 		return c, true
 	}, execCase)
+}
+
+// atoms are the implemented opcodes with canonical small operands; every program of up to three
+// atoms (with and without a final STOP) is decoded: a bounded-exhaustive core of short inputs.
+var atoms = []string{"(", ".", "\x94", "h\x00", "h\x01", "j\x00\x00\x00\x00", "N", "\x88", "\x89", "I7\n", "K\x01", "M\x01\x01", "J\x01\x00\x00\x00", "G\x00\x00\x00\x00\x00\x00\xf0?",
+	"\x8c\x01a", "X\x01\x00\x00\x00b", "C\x01c", "B\x01\x00\x00\x00d", "]", "a", "e", ")", "\x85", "\x86", "\x87", "t", "}", "u", "\x8f", "\x90", "\x93", "\x81", "\x8c\x04dawn", "\x8c\x06Target", "\x8c\x08Function", "\x8c\x0cFunctionCode", "\x8c\x07Builtin", "\x8c\x05verif"}
+
+func TestC15ShortPrograms(t *testing.T) {
+	n := len(atoms)
+	total := n + n*n + n*n*n
+	i := -1
+	ev.Enumerate(run, t, "short-programs", func() (Case, bool) {
+		for {
+			i++
+			if i >= 2*total {
+				return Case{}, false
+			}
+			if i%run.NShards != run.Shard {
+				continue
+			}
+			k := i / 2
+			var s string
+			switch {
+			case k < n:
+				s = atoms[k]
+			case k < n+n*n:
+				k -= n
+				s = atoms[k/n] + atoms[k%n]
+			default:
+				k -= n + n*n
+				s = atoms[k/(n*n)] + atoms[(k/n)%n] + atoms[k%n]
+			}
+			if i%2 == 1 {
+				s += "."
+			}
+			return Case{Raw: []byte(s)}, true
+		}
+	}, execCase)
+	run.Extra("exhaustive_short_programs", 2*total)
 }
 
 // FuzzC15Decode is the coverage-guided target (thorough tier; also re-runs saved crashers).
